@@ -38,7 +38,7 @@ SchedStep ==
        \/ \E n \in Mans : \/ CopyFetch(c, n) /\ Rec("CopyFetch", c, n, "")
                           \/ CopyRefList(c, n) /\ Rec("CopyRefList", c, n, "")
        \/ \E b \in Nodes : CopyBlobStart(c, b) /\ Rec("CopyBlobStart", c, b, "")
-  \/ \E k \in conf.ckeys : CloseUseful(k) /\ Close(k) /\ Rec("Close", "", k, "")
+  \/ \E k \in conf.ckeys, x \in CtxKinds : CloseUseful(k) /\ Close(k, x) /\ Rec("Close", "", k, x)
   \/ \E t \in {e[1] : e \in idx} : TagDelete(t) /\ Rec("TagDelete", "", t, "")
   \/ \E n \in Mans : ManifestDelete(n) /\ Rec("ManifestDelete", "", n, "")
   \/ \E p \in conf.retags : Retag(p) /\ Rec("Retag", "", p[1], p[2])
